@@ -40,7 +40,11 @@ func specOf(id identity) reqSpec {
 		sp.port = 50000 + (affReqN*3)%4
 		// ... and through however many proxies happened to be on the way: each appends itself
 		// to X-Forwarded-For; the client is the first element whatever follows it
-		if sp.xff != "" && !strings.Contains(sp.xff, ",") {
+		if sp.eitherHeader {
+			if affReqN%2 == 0 {
+				sp.xff, sp.xreal = "", sp.xff
+			}
+		} else if sp.xff != "" && !strings.Contains(sp.xff, ",") {
 			sp.xff += xffTails[(affReqN*5)%len(xffTails)]
 		}
 	}
@@ -55,7 +59,12 @@ func makeIdentities(x *X, n int) []identity {
 		a := fmt.Sprintf("%d.%d.%d.%d", 1+c.Intn(223, "ip-a"), c.Intn(256, "ip-b"), c.Intn(256, "ip-c"), 1+c.Intn(254, "ip-d"))
 		a6 := fmt.Sprintf("2001:db8:%x::%x", c.Intn(65536, "ip6-a"), 1+c.Intn(65535, "ip6-b"))
 		var id identity
-		switch c.Intn(11, "idkind") {
+		switch c.Intn(12, "idkind") {
+		case 11:
+			// one address string, named by X-Forwarded-For in some requests and by X-Real-IP in
+			// others (two front proxies with different habits): the same client either way
+			v := []string{"2001:DB8::1", "2001:db8:0:0:0:0:0:2", "0:0:0:0:0:0:0:1", "::ffff:192.0.2.33", a, "FE80::A:B:C:D"}[c.Intn(6, "either-addr")]
+			id = identity{fmt.Sprintf("either-header:%s#%d", v, i), reqSpec{client: "10.255.0.1", xff: v, eitherHeader: true}}
 		case 10:
 			// a list whose first element is empty: whatever client that names, it is the same one
 			// every time -- through whichever front proxy (peer) the request came
